@@ -77,7 +77,7 @@ class Ctx:
         self.prop, self.tier, self.seed = prop, tier, seed
         self.rng = random.Random(seed)
         self.t0 = time.time()
-        self.scratch = BUILD / prop
+        self.scratch = BUILD / (prop + os.environ.get('VERIF_SCRATCH_SUFFIX', ''))
         self.scratch.mkdir(parents=True, exist_ok=True)
         self.failures: list[Failure] = []
         self.obligations: list[dict] = []      # {'name','file','ok','assumptions'}
